@@ -9,6 +9,8 @@
    emitted Transfer events) + aux (heights, committee, reward bookkeeping, caches, policy values).
    Accounts and public keys are small numbers assigned by the harness (key ids are ordered like PublicKey.Cmp). *)
 From NG Require Import Common.Tactics.
+From NG Require Import Auth.Permission Auth.PermStore.
+From Coq Require String.
 Open Scope Z_scope.
 
 (* ---------- association maps with a default ---------- *)
@@ -76,14 +78,31 @@ Record aux := mkA {
 }.
 
 (* Management contract record of a deployed contract: id, update counter, version of the NEF/manifest (1 or 2) *)
-Record mcontract := mkMC { mc_present : bool; mc_id : Z; mc_counter : Z; mc_version : Z }.
-Definition mc0 := mkMC false 0 0 0.
+(* the manifest details a node enforces: permissions (Auth/Permission.v), groups (key ids), names of the safe methods *)
+Record mshape := mkShape { sh_perms : list permission; sh_groups : list N; sh_safe : list String.string }.
+
+(* a contract state as ManagementCache.contracts holds it (manifest parsed from JSON at deploy / update time) ... *)
+Record mcontract := mkMC { mc_present : bool; mc_id : Z; mc_counter : Z; mc_version : Z;
+                           mc_perms : list permission; mc_groups : list N; mc_safe : list String.string }.
+Definition mc0 := mkMC false 0 0 0 [] [] [].
+
+(* ... and as storage holds it: the manifest in its stack-item form; the permissions go through
+   Permission.ToStackItem / FromStackItem (Auth/PermStore.v), groups and safe flags are stored as they are *)
+Record mstored := mkMS { ms_present : bool; ms_id : Z; ms_counter : Z; ms_version : Z;
+                         ms_perms : sitem; ms_groups : list N; ms_safe : list String.string }.
+Definition store_of (c : mcontract) : mstored :=
+  mkMS (mc_present c) (mc_id c) (mc_counter c) (mc_version c) (perms_to_item (mc_perms c)) (mc_groups c) (mc_safe c).
+(* Management.InitializeCache: DeserializeConvertible -> Manifest.FromStackItem *)
+Definition load (s : mstored) : mcontract :=
+  mkMC (ms_present s) (ms_id s) (ms_counter s) (ms_version s)
+       (match perms_from_item (ms_perms s) with Some ps => ps | None => [] end) (ms_groups s) (ms_safe s).
+Definition ms0 := store_of mc0.
 
 (* Designate (RoleManagement) and ContractManagement: storage and caches *)
 Record ext := mkX {
   ds_store : amap (list (Z * list N));   (* role -> records (effective height, sorted keys), NEWEST FIRST *)
   ds_cache : amap (Z * list N);          (* DesignationCache: role -> (height, nodes) of the latest record *)
-  mg_store : amap mcontract;             (* storage prefix 8: contract account -> state *)
+  mg_store : amap mstored;               (* storage prefix 8: contract account -> state (stored form) *)
   mg_cache : amap mcontract;             (* ManagementCache.contracts *)
   mg_ids : amap (option N);              (* storage prefix 12: id -> contract account *)
   mg_next : Z                            (* storage key 15: nextAvailableID *)
@@ -582,32 +601,40 @@ Definition designate_as_role (st : state) (role : N) (ks : list N) : result :=
 (* ---------- ContractManagement ---------- *)
 Definition mg_put (st : state) (h : N) (c : mcontract) (ids : amap (option N)) (next : Z) : state :=
   let x := X st in
-  withX st (mkX (ds_store x) (ds_cache x) (aset h c (mg_store x)) (aset h c (mg_cache x)) ids next).
+  withX st (mkX (ds_store x) (ds_cache x) (aset h (store_of c) (mg_store x)) (aset h c (mg_cache x)) ids next).
 
 (* Policy.CleanWhitelist *)
 Definition whitelist_clean (st : state) (a : N) : state :=
   withA st (set_policy (A st) (aset (wl_key a) 0 (p_store (A st))) (aset (wl_key a) 0 (p_cache (A st)))).
 
-(* Management.deploy by account a (hash depends on the sender) *)
-Definition mg_deploy (st : state) (a : N) : result :=
+(* the Management contract as a callee (abstract hash number 64, no groups) *)
+Definition mgmt_callee : callee := mk_callee 64 [].
+
+(* Management.deploy by account a (hash depends on the sender) with the manifest details m *)
+Definition mg_deploy (st : state) (a : N) (m : mshape) : result :=
   let h := caddr a in
   if is_blocked st h then None else
   if mc_present (contract_of st a) then None else
   let id := mg_next (X st) in
-  Some (mg_put st h (mkMC true id 0 1) (aset (Z.to_N id) (Some h) (mg_ids (X st))) (id + 1), None).
+  Some (mg_put st h (mkMC true id 0 1 (sh_perms m) (sh_groups m) (sh_safe m))
+               (aset (Z.to_N id) (Some h) (mg_ids (X st))) (id + 1), None).
 
-(* Management.update called by the contract of account a: whitelist cleaned, counter incremented *)
-Definition mg_update (st : state) (a : N) : result :=
+(* Management.update called by the contract of account a (its CACHED manifest must permit the call): whitelist cleaned,
+   counter incremented, the new manifest details in place *)
+Definition mg_update (st : state) (a : N) (m : mshape) : result :=
   let c := contract_of st a in
   if negb (mc_present c) then None else
+  if negb (can_call (mc_perms c) mgmt_callee "update"%string) then None else
   if mc_counter c =? 65535 then None else
   let st1 := whitelist_clean st a in
-  Some (mg_put st1 (caddr a) (mkMC true (mc_id c) (mc_counter c + 1) 2) (mg_ids (X st1)) (mg_next (X st1)), None).
+  Some (mg_put st1 (caddr a) (mkMC true (mc_id c) (mc_counter c + 1) 2 (sh_perms m) (sh_groups m) (sh_safe m))
+               (mg_ids (X st1)) (mg_next (X st1)), None).
 
 (* Management.destroy called by the contract of account a: its hash is blocked, its whitelist entries and records go *)
 Definition mg_destroy (st : state) (a : N) : result :=
   let c := contract_of st a in
   if negb (mc_present c) then None else
+  if negb (can_call (mc_perms c) mgmt_callee "destroy"%string) then None else
   match block_account st (caddr a) with
   | None => None
   | Some (st1, _) =>
@@ -672,7 +699,7 @@ Inductive op :=
 | OPolicy (key v : Z)
 | OWhitelist (a : N) (fee : option Z)   (* set / remove the whitelisted fee of the method "put" of the contract of a *)
 | ODesignate (role : N) (ks : list N)
-| ODeploy (a : N) | OUpdate (a : N) | ODestroy (a : N)
+| ODeploy (a : N) (m : mshape) | OUpdate (a : N) (m : mshape) | ODestroy (a : N)
 | ODeployOther            (* a deployment of a contract the model does not follow: it takes the next contract id *)
 | OAbort                 (* a script that faults *)
 | OOpaque.               (* an invocation that does not touch the modelled contracts *)
@@ -720,8 +747,8 @@ Definition run_op (st : state) (t : tx) : result :=
       then match fee with Some f => whitelist_set st a f | None => whitelist_remove st a end
       else None
   | ODesignate role ks => if committee_witness st t then designate_as_role st role ks else None
-  | ODeploy a => mg_deploy st a
-  | OUpdate a => mg_update st a
+  | ODeploy a m => mg_deploy st a m
+  | OUpdate a m => mg_update st a m
   | ODestroy a => mg_destroy st a
   | ODeployOther =>
       if i_halt t then
@@ -889,7 +916,7 @@ Definition genesis : state :=
 (* Designate.InitializeCache / Management.InitializeCache: the caches are what storage says *)
 Definition reinit_ext (x : ext) : ext :=
   mkX (ds_store x) (map (fun '(r, recs) => (r, match recs with rec :: _ => rec | [] => (0, []) end)) (ds_store x))
-      (mg_store x) (mg_store x) (mg_ids x) (mg_next x).
+      (mg_store x) (map (fun '(h, s) => (h, load s)) (mg_store x)) (mg_ids x) (mg_next x).
 
 (* ---------- restart: the caches re-initialised from storage (InitializeCache of NEO and Policy) ---------- *)
 Definition reinit (st : state) : state :=
